@@ -107,6 +107,16 @@ CHECKS = {
         note="Trusted: Lean kernel, T2 (syntactic translator), Py/Int.lean as a model of CPython int arithmetic (K4-sampled).",
         technique="Lean 4 proof over Int (omega / core Int lemmas) about a term regenerated from the source",
         design="6 C06"),
+    "C13": dict(
+        text="Lean theorems about the model of the command-line entry point (exactly one line for every argument list; Success with "
+             "the MIR iff the program compiled, Failure with the reason otherwise; file and base64 entry points agree on the same text) "
+             "and determinism of the trace/compile model (a function: no set or hash order can enter). Partial: hash randomisation, the "
+             "import system, stdout and timers are runtime; every run compiles generated programs in fresh processes through both "
+             "entry points under several PYTHONHASHSEED values and with NADA_TIMER, requiring byte-identical stdout and equal MIRs.",
+        note="Trusted: Lean kernel; Runtime/Cli.lean is a hand-written model of compile.py's __main__ block; the determinism of the real "
+             "process is sampled (fresh-process runs), not proved.",
+        technique="Lean 4 proof about the CLI/compile model + fresh-process differential runs across entry points and hash seeds",
+        design="6 C13"),
     "C19": dict(
         text="Lean theorems for all texts and line numbers (`lineInfo_exact`: offset/length delimit exactly the line, last line "
              "included; `intern_*`: to_index returns an equal entry and keeps earlier indices; `resolve_user`: the frame walk returns "
